@@ -366,8 +366,8 @@ def run(ctx):
     ctx.rule("C14.bundle", "identity, registration id and one signed-prekey record feed the upload", floor=5)
     ctx.rule("C14.login", "passive login, single flush by copy, reboot", floor=9)
     ctx.assume("python-axolotl consumes one-time keys through the store's removePreKey and verifies signatures itself; histories are not decided")
-    ent = rule_sent(ctx)
-    rule_flag(ctx)
-    rule_ids(ctx)
-    rule_bundle(ctx, ent)
-    rule_login(ctx)
+    ent = ctx.guarded("C14.sent", rule_sent, ctx)
+    ctx.guarded("C14.flag", rule_flag, ctx)
+    ctx.guarded("C14.ids", rule_ids, ctx)
+    ctx.guarded("C14.bundle", rule_bundle, ctx, ent)
+    ctx.guarded("C14.login", rule_login, ctx)
